@@ -76,6 +76,8 @@ type Interp struct {
 	depth    int
 
 	initPoison []string
+	qcache     map[string]qentry
+	qhits      int
 	cur        ssa.Instruction
 
 	run *Run // shared run state (solver, queue hooks)
